@@ -23,7 +23,11 @@ func c14Doc(security bool) J {
 		"/k2":      J{"get": J{"operationId": "Op2", "parameters": []interface{}{J{"name": "q", "in": "query", "required": true, "schema": J{"type": "string"}}}, "responses": ok}},
 		"/k3": J{"post": J{"operationId": "Op3", "requestBody": J{"required": true, "content": J{"application/json": J{"schema": J{"type": "object", "properties": J{"a": J{"type": "integer"}}}}}},
 			"responses": ok}},
+		// a path shared by two methods, and a path that another one is a prefix of: a middleware mounted per route or per
+		// prefix instead of per operation would run twice, or for the wrong operation
+		"/k3/{sub}": J{"get": J{"operationId": "Op6", "parameters": []interface{}{J{"name": "sub", "in": "path", "required": true, "schema": J{"type": "string"}}}, "responses": ok}},
 	}
+	paths["/k0"].(J)["post"] = J{"operationId": "Op5", "responses": ok}
 	doc := J{"openapi": "3.0.3", "info": J{"title": "t", "version": "1"}, "paths": paths}
 	if security {
 		paths["/k4"] = J{"get": J{"operationId": "Op4", "security": []interface{}{J{"ApiKey": []interface{}{"r"}}}, "responses": ok}}
@@ -38,6 +42,8 @@ var c14Reqs = []J{
 	{"method": "GET", "url": "http://h/k2?q=x"},
 	{"method": "POST", "url": "http://h/k3", "headers": [][2]string{{"Content-Type", "application/json"}}, "body": `{"a":1}`},
 	{"method": "GET", "url": "http://h/k4"},
+	{"method": "POST", "url": "http://h/k0"},
+	{"method": "GET", "url": "http://h/k3/below"},
 }
 
 type c14Row struct {
@@ -173,7 +179,7 @@ func c14Measure(ctx *Ctx) ([]c14Row, []string, error) {
 		if fw == "echo" {
 			maxN = 0
 		}
-		for op := 0; op < 5; op++ {
+		for op := 0; op < len(c14Reqs); op++ {
 			for n := 0; n <= maxN; n++ {
 				for stop := -1; stop < n; stop++ {
 					scombos := [][2]int{{0, -1}}
@@ -278,7 +284,7 @@ func genC14(ctx *Ctx) error {
 }
 
 func runC14(ctx *Ctx) error {
-	ctx.Res.Rule = "exhaustive table: framework(7) x strict(2) x first-to-last flag (chi/gorilla/std-http) x 0..3 per-operation middlewares x every short-circuit position x strict middleware count 0..2 x strict short-circuit position x 5 operation kinds (none, path, query, body, security); one request per cell, trace of recording middlewares and stub; non-trivial = at least one middleware"
+	ctx.Res.Rule = "exhaustive table: framework(7) x strict(2) x first-to-last flag (chi/gorilla/std-http) x 0..3 per-operation middlewares x every short-circuit position x strict middleware count 0..2 x strict short-circuit position x 7 operation kinds (none, path, query, body, security, a second method of a path, a path below another operation's path); one request per cell, trace of recording middlewares and stub; non-trivial = at least one middleware"
 	rows, notes, err := c14Measure(ctx)
 	if err != nil {
 		return err
